@@ -43,6 +43,9 @@ type Shape struct {
 	E *Shape  `json:"e,omitempty"` // element of ptr / slice / map / iface
 	// N is the number of elements of a slice or map value (0..2); every element is built from E with its own canaries.
 	N int `json:"n,omitempty"`
+	// MK is the key type of a map: "" = string, or "int", "int64", "uint8" (legal in request / response types; both JSON
+	// encoders write such maps as objects with quoted keys).
+	MK string `json:"mk,omitempty"`
 	// Nil makes the pointer / interface value nil.
 	Nil bool `json:"nil,omitempty"`
 	// R describes the value of a "rec" node.
@@ -131,6 +134,9 @@ func genShape(t *rapid.T, depth, allow int, inIface bool) (Shape, int) {
 		}
 		s.E = &e
 		s.N = rapid.SampledFrom([]int{1, 1, 1, 1, 2, 2, 2, 0}).Draw(t, "n")
+		if k == kMap && rapid.IntRange(0, 3).Draw(t, "mapkey") == 3 {
+			s.MK = rapid.SampledFrom([]string{"int", "int64", "uint8"}).Draw(t, "mapkeykind")
+		}
 		return s, used
 	case kIface:
 		s := Shape{K: kIface}
@@ -219,6 +225,9 @@ func validShape(s *Shape, depth int, inIface bool, leaves *int) error {
 		if s.E == nil || s.N < 0 || s.N > 2 {
 			return fmt.Errorf("bad %s", s.K)
 		}
+		if _, ok := mapKeyTypes[s.MK]; !ok || (s.MK != "" && s.K != kMap) {
+			return fmt.Errorf("bad map key kind %q", s.MK)
+		}
 		return validShape(s.E, depth+1, false, leaves)
 	case kIface:
 		if s.E == nil || inIface {
@@ -244,6 +253,27 @@ func validShape(s *Shape, depth int, inIface bool, leaves *int) error {
 
 var anyType = reflect.TypeOf((*any)(nil)).Elem()
 
+// mapKeyTypes: the key types of generated maps by Shape.MK.
+var mapKeyTypes = map[string]reflect.Type{
+	"": reflect.TypeOf(""), "int": reflect.TypeOf(int(0)), "int64": reflect.TypeOf(int64(0)), "uint8": reflect.TypeOf(uint8(0)),
+}
+
+// hasNonStringMap reports whether the shape contains a map whose key is not a string.
+func hasNonStringMap(s *Shape) bool {
+	if s == nil {
+		return false
+	}
+	if s.K == kMap && s.MK != "" {
+		return true
+	}
+	for i := range s.F {
+		if hasNonStringMap(&s.F[i].T) {
+			return true
+		}
+	}
+	return hasNonStringMap(s.E)
+}
+
 func typeOf(s *Shape) reflect.Type {
 	switch s.K {
 	case kStruct:
@@ -262,7 +292,7 @@ func typeOf(s *Shape) reflect.Type {
 	case kSlice:
 		return reflect.SliceOf(typeOf(s.E))
 	case kMap:
-		return reflect.MapOf(reflect.TypeOf(""), typeOf(s.E))
+		return reflect.MapOf(mapKeyTypes[s.MK], typeOf(s.E))
 	case kIface:
 		return anyType
 	case kRec:
@@ -438,7 +468,11 @@ func (b *valueBuilder) value(s *Shape, p pathInfo) reflect.Value {
 	case kMap:
 		v := reflect.MakeMapWithSize(t, s.N)
 		for i := 0; i < s.N; i++ {
-			v.SetMapIndex(reflect.ValueOf("k"+strconv.Itoa(i)), b.value(s.E, p.push(s.E.K)))
+			key := reflect.ValueOf("k" + strconv.Itoa(i))
+			if s.MK != "" {
+				key = reflect.ValueOf(i + 1).Convert(t.Key())
+			}
+			v.SetMapIndex(key, b.value(s.E, p.push(s.E.K)))
 		}
 		return v
 	case kIface:
